@@ -171,6 +171,7 @@ func poolConfigs(prop string, thorough bool) (cfgs []poolCfg, depth int) {
 		base := alphabet{Resolve: []string{"a2", "empty"}, ResErr: true, States: "basic", Shutdown: true, Unknown: true,
 			Cmds: []string{"plain", "bind", "bound", "unbind", "badloc"}, Keys: []string{"k1"}, Gens: []string{"L", "P", "O"},
 			Ctx: []string{"g", "n", "el", "gn"}, Done: []string{"ok", "ok:k1", "err", "nr"}, Fail: true, MaxOpen: 2, MaxSC: 4}
+		base.Close = true
 		feats := []string{"all", "plain", "fallback", "refresh", "rr"}
 		for _, f := range feats {
 			c := poolCfg{Name: prop + " " + f, Min: 1, Max: 2, WM: 1, Setup: readyPool(1), A: base}
